@@ -218,3 +218,25 @@ def inline_resolver(ctx, names):
                 return fi
         return None
     return resolve
+
+
+def truth(t, decide):
+    """three-valued truth of a boolean term; `decide(atom)` answers the leaves (anything that is not and / or / not), None = unknown.
+    Short-circuit order is respected: an `and` is False as soon as an earlier operand is False, whatever follows (even unknown)."""
+    tag = t[0]
+    if tag == 'const':
+        return bool(t[1])
+    if tag == 'unop' and t[1] == 'not':
+        r = truth(t[2], decide)
+        return None if r is None else not r
+    if tag == 'boolop':
+        for x in t[2]:
+            r = truth(x, decide)
+            if r is None:
+                return None
+            if t[1] == 'and' and r is False:
+                return False
+            if t[1] == 'or' and r is True:
+                return True
+        return t[1] == 'and'
+    return decide(t)
